@@ -58,6 +58,21 @@ def dns_cases(rng, tier):
         out.append(('dns-rnd-%d' % k, ['harness hdns'] + ops))
     return out
 
+def cookie_cases(rng, tier):
+    """the DTLS HelloVerify cookie check: every length 0..48 of a prefix of the genuine cookie, longer ones, single-bit
+    flips of every octet, cookies issued 0..9 seconds ago"""
+    ops = []
+    for ln in range(0, 49):
+        ops.append('op cookie %d g %d' % (ln, rng.randrange(256)))
+    for ln in (64, 100, 255):
+        ops.append('op cookie %d g %d' % (ln, rng.randrange(256)))
+    for bit in range(0, 320, 8 if tier == 'thorough' else 24):
+        ops.append('op cookie 40 f %d' % (bit + rng.randrange(8)))
+    for age in range(0, 10):
+        ops.append('op cookie 40 o %d' % age)
+        ops.append('op cookie %d o %d' % (rng.choice([8, 24, 39, 41]), age))
+    return [('cookie', ['harness hcook'] + ops)]
+
 def dynsrv_cases(rng, tier):
     """dynamic discovery through SRV answers: ports 0..65535 incl. every digit count, several records, equal priorities"""
     out = []
@@ -94,7 +109,7 @@ def replycode_cases(rng, tier):
     return out
 
 def generate(rng, tier):
-    out = dns_cases(rng, tier) + dynsrv_cases(rng, tier) + replycode_cases(rng, tier)
+    out = dns_cases(rng, tier) + cookie_cases(rng, tier) + dynsrv_cases(rng, tier) + replycode_cases(rng, tier)
     for name in ('C05', 'C04', 'C06', 'C01', 'C18', 'C15', 'C02', 'C03', 'C16'):
         mod = importlib.import_module(name)
         sub = mod.generate(rng, 'quick' if tier == 'quick' else 'thorough')
